@@ -546,6 +546,7 @@ func (c *RefClient) response(f map[string]interface{}, idv interface{}, raw []by
 			c.DirectLog = append(c.DirectLog, DirectRec{T: t, RID: rid, Kind: "res+", Count: 1, After: c.Direct[rid]})
 			if _, held := c.Held[rid]; !held {
 				c.viol("C02", "resource_response_without_data", t, "resource response #%d for %s leaves the client without data or error for it", id, rid)
+				c.Viol[len(c.Viol)-1].RID = rid // the resource named by the response, not the one called
 			}
 		}
 	}
